@@ -2,7 +2,7 @@
    MapProofs and WorldProofs; the Prop_Cxx.v files restate them and close them by [exact]. *)
 From stdpp Require Import gmap list.
 From Coq Require Import NArith Lia.
-From G Require Import Arith Monad Types Inv Raw RawProofs Map MapProofs WorldProofs.
+From G Require Import Arith Monad Types Inv Raw RawProofs Map MapProofs Cost Fill WorldProofs.
 Local Open Scope N_scope.
 
 (* every world reachable by a history of (so far: core) operations, from the empty world *)
@@ -41,6 +41,15 @@ Proof.
   replace (wabs world0) with (∅ : gmap N (gmap N elem)) in Hr; [exact Hr|].
   unfold wabs, world0. cbn [w_maps]. rewrite fmap_empty. reflexivity.
 Qed.
+
+Lemma T_C01_run_refines_no_fuse c ts w acc :
+  0 < cR c -> WInv c w -> w_fuse w = None -> Forall core_op (map t_op ts) ->
+  match run c w ts acc with
+  | inl (w', outs) =>
+      WInv c w' /\ w_fuse w' = None /\ exists rs, outs = acc ++ rs /\ spec_runs0 (wabs w) (map t_op ts) rs (wabs w')
+  | inr f => benign f
+  end.
+Proof. intros HR. apply run_core_nofuse. exact HR. Qed.
 
 Lemma T_C01_len c w i m :
   0 < cR c -> reachable c w -> w_maps w !! i = Some m ->
@@ -114,6 +123,142 @@ Lemma T_C05_cursor_agrees c w i m o :
 Proof.
   intros HR Hr Hi Hlo. destruct (reachable_slot c w i m HR Hr Hi) as (_ & _ & Ho). rewrite Hlo in Ho.
   destruct Ho as (H1 & H2 & H3 & H4 & _). unfold olen in H1. split; [congruence|]. auto.
+Qed.
+
+(* C04, as stated: inserting capacity() - len() previously unseen keys *)
+Lemma T_C04_fill c es s :
+  Inv (cR c) (cesz c) (s_rt s) -> NoDup (map ek es) -> (forall e, e ∈ es -> rt_abs (s_rt s) !! ek e = None) ->
+  N.of_nat (length es) = rt_capacity (s_rt s) - rt_len (s_rt s) ->
+  match iterM (rt_insert c) es s with
+  | Ok _ s' =>
+      Inv (cR c) (cesz c) (s_rt s') /\ rt_abs (s_rt s') = insert_all (rt_abs (s_rt s)) es /\
+      hB (main (s_rt s')) = hB (main (s_rt s)) /\ rt_capacity (s_rt s) <= rt_capacity (s_rt s') /\
+      l_alloc (s_log s') = l_alloc (s_log s) /\ (es <> [] -> lo (s_rt s') = None)
+  | Unwind p s' => Inv (cR c) (cesz c) (s_rt s') /\ p = PUser
+  | Fault f => benign f
+  end.
+Proof. intros HI Hnd Hf Hl. exact (fill_to_capacity c es s HI Hnd Hf Hl). Qed.
+
+(* ---------------------------------------------------------------- C02 *)
+
+Definition log_within (d : delta) (s s' : st) : Prop := within d (s_log s) (s_log s').
+
+Lemma cost_run {A} d (m : M' A) s : cost d m ->
+  match m s with Ok _ s' | Unwind _ s' => log_within d s s' | Fault _ => True end.
+Proof. intros H. specialize (H s). unfold wpp, okq, oku in H. destruct (m s); [apply H|apply H|exact I]. Qed.
+
+(* insert: the key's hash plus at most R moves with one hash each: <= 1 + R hashes, <= 1 allocation *)
+Lemma T_C02_insert c k kid v s :
+  match map_insert c k kid v s with
+  | Ok _ s' | Unwind _ s' => log_within (D (1 + cR c) (cR c) 1 2) s s'
+  | Fault _ => True
+  end.
+Proof. apply cost_run, cost_map_insert. Qed.
+
+Lemma T_C02_lookup g k wv s :
+  match map_get g k wv s with
+  | Ok _ s' | Unwind _ s' => log_within (D 1 0 0 0) s s'
+  | Fault _ => True
+  end.
+Proof. apply cost_run, cost_map_get. Qed.
+
+Lemma T_C02_remove c k s :
+  match map_remove_entry c k s with
+  | Ok _ s' | Unwind _ s' => log_within (D 1 0 0 1) s s'
+  | Fault _ => True
+  end.
+Proof. apply cost_run, cost_map_remove_entry. Qed.
+
+(* ---------------------------------------------------------------- C10 *)
+
+Lemma T_C10_with_capacity c fallible cap s t s' :
+  hb_with_capacity c fallible cap s = Ok (Some t) s' -> cap <= hgl t /\ hn t = 0 /\ hb_ok (cesz c) t.
+Proof.
+  intros Hrun. pose proof (hb_with_capacity_spec c fallible cap
+    (fun r _ => match r with Some t => cap <= hgl t /\ hn t = 0 /\ hb_ok (cesz c) t | None => True end) (fun _ _ => True) s) as H.
+  unfold wp in H. rewrite Hrun in H. apply H; auto.
+Qed.
+
+(* reserve / successful try_reserve: capacity() >= len() + n *)
+Lemma T_C10_reserve c fallible n s s' :
+  Inv (cR c) (cesz c) (s_rt s) -> n <= usize_max -> rt_reserve c fallible n s = Ok true s' ->
+  Inv (cR c) (cesz c) (s_rt s') /\ rt_abs (s_rt s') = rt_abs (s_rt s) /\
+  rt_len (s_rt s') + n <= rt_capacity (s_rt s').
+Proof.
+  intros HI Hn Hrun.
+  pose proof (rt_reserve_spec c fallible n
+    (fun b s2 => b = true -> Inv (cR c) (cesz c) (s_rt s2) /\ rt_abs (s_rt s2) = rt_abs (s_rt s) /\ rt_len (s_rt s2) + n <= rt_capacity (s_rt s2))
+    (fun _ _ => True) s HI Hn) as H.
+  unfold wp in H. rewrite Hrun in H. apply H; auto.
+  - intros s2 (HI2 & Habs2 & Hroom) _. split; [exact HI2|]. split; [exact Habs2|].
+    destruct HI2 as (HR & _ & Ho). unfold rt_len, rt_capacity, hlen, olen.
+    destruct (lo (s_rt s2)) as [o|]; [|lia].
+    destruct Ho as (_ & _ & _ & _ & Hneed). destruct Hroom as [Hroom|Hroom]; [lia|].
+    pose proof (need_ge (ocnt o) (cR c) HR). lia.
+  - discriminate.
+Qed.
+
+(* a failed try_reserve leaves the contents unchanged *)
+Lemma T_C10_try_reserve_err c n s s' :
+  Inv (cR c) (cesz c) (s_rt s) -> n <= usize_max -> rt_reserve c true n s = Ok false s' ->
+  Inv (cR c) (cesz c) (s_rt s') /\ rt_abs (s_rt s') = rt_abs (s_rt s).
+Proof.
+  intros HI Hn Hrun.
+  pose proof (rt_reserve_spec c true n
+    (fun b s2 => b = false -> Inv (cR c) (cesz c) (s_rt s2) /\ rt_abs (s_rt s2) = rt_abs (s_rt s))
+    (fun _ _ => True) s HI Hn) as H.
+  unfold wp in H. rewrite Hrun in H. apply H; auto. discriminate.
+Qed.
+
+(* reserve panics only with the documented capacity overflow (or an injected user panic), and
+   then the contents are unchanged *)
+Lemma T_C10_reserve_panic c fallible n s p s' :
+  Inv (cR c) (cesz c) (s_rt s) -> n <= usize_max -> rt_reserve c fallible n s = Unwind p s' ->
+  Inv (cR c) (cesz c) (s_rt s') /\ (p = PUser \/ (p = PCapOverflow /\ fallible = false /\ rt_abs (s_rt s') = rt_abs (s_rt s))).
+Proof.
+  intros HI Hn Hrun.
+  pose proof (rt_reserve_spec c fallible n (fun _ _ => True)
+    (fun p s2 => Inv (cR c) (cesz c) (s_rt s2) /\ (p = PUser \/ (p = PCapOverflow /\ fallible = false /\ rt_abs (s_rt s2) = rt_abs (s_rt s))))
+    s HI Hn) as H.
+  unfold wp in H. rewrite Hrun in H. apply H; auto.
+  intros q s2 (HI2 & Hq & _ & Hov) Hf. split; [exact HI2|]. destruct Hq as [->| ->]; [left; reflexivity|right; auto].
+Qed.
+
+(* neither ever returns normally having reserved nothing: a request that cannot be met
+   (n beyond isize::MAX, a fortiori one that overflows usize) is never answered Ok / normally *)
+Lemma T_C10_never_silent c fallible n s s' :
+  Inv (cR c) (cesz c) (s_rt s) -> isize_max < n -> n <= usize_max -> rt_reserve c fallible n s <> Ok true s'.
+Proof.
+  intros HI Hbig Hn Hrun. destruct (T_C10_reserve c fallible n s s' HI Hn Hrun) as (HI' & _ & Hcap).
+  destruct HI' as (_ & Hok & _). pose proof (hb_ok_cap_bound _ _ Hok).
+  unfold rt_capacity, rt_len, hlen in Hcap. lia.
+Qed.
+
+(* shrink_to / shrink_to_fit *)
+Lemma T_C10_shrink c m s s' :
+  Inv (cR c) (cesz c) (s_rt s) -> rt_shrink_to c m s = Ok tt s' -> shrink_post c (s_rt s) m (s_rt s').
+Proof.
+  intros HI Hrun. pose proof (rt_shrink_to_spec c m (fun _ s2 => shrink_post c (s_rt s) m (s_rt s2)) (fun _ _ => True) s HI) as H.
+  unfold wp in H. rewrite Hrun in H. apply H; auto.
+Qed.
+
+(* after a successful reserve(n), the next n new keys are inserted without growth or allocation *)
+Lemma T_C10_reserved_inserts c es s :
+  Inv (cR c) (cesz c) (s_rt s) -> NoDup (map ek es) -> (forall e, e ∈ es -> rt_abs (s_rt s) !! ek e = None) ->
+  rt_len (s_rt s) + N.of_nat (length es) <= rt_capacity (s_rt s) ->
+  match iterM (rt_insert c) es s with
+  | Ok _ s' => Inv (cR c) (cesz c) (s_rt s') /\ hB (main (s_rt s')) = hB (main (s_rt s)) /\
+               l_alloc (s_log s') = l_alloc (s_log s) /\ rt_abs (s_rt s') = insert_all (rt_abs (s_rt s)) es
+  | Unwind p s' => p = PUser
+  | Fault f => benign f
+  end.
+Proof.
+  intros HI Hnd Hf Hroom.
+  assert (Hfit : N.of_nat (length es) + left (s_rt s) <= hgl (main (s_rt s))).
+  { unfold rt_len, rt_capacity, hlen, olen, left in *. destruct (lo (s_rt s)); lia. }
+  pose proof (fill_spec c es s HI Hnd Hf Hfit) as H. unfold wp in H.
+  destruct (iterM (rt_insert c) es s) as [a s'|p s'|f]; [|apply H|exact H].
+  destruct H as (H1 & H2 & H3 & _ & H5 & _). auto.
 Qed.
 
 (* ---------------------------------------------------------------- non-vacuity: a concrete
